@@ -104,6 +104,8 @@ def run(ctx):
     cases = []
     seen = set()
 
+    style_rng = random.Random(ctx.seed + 4711)
+
     def add(sub, flags):
         argv = [sub] if sub else []
         st = []
@@ -117,7 +119,14 @@ def run(ctx):
                 if name == "file":
                     finfo_used = {k: w for k, w in finfo[val].items() if k != "path"}
                     v = finfo[val]["path"]
-                argv.append("--%s=%s" % (name, v))
+                # Go's flag syntax in all its spellings: --n=v, -n=v, --n v, -n v (the last two not for values starting with '-')
+                style = style_rng.randrange(4) if not str(v).startswith("-") and v != "" else style_rng.randrange(2)
+                if style == 0:
+                    argv.append("--%s=%s" % (name, v))
+                elif style == 1:
+                    argv.append("-%s=%s" % (name, v))
+                else:
+                    argv += [("--" if style == 2 else "-") + name, v]
                 st.append(dict(name=name, val=cps(v), has=1))
         key = tuple(argv)
         if key in seen:
